@@ -75,50 +75,42 @@ Proof. exact (labelling_keeps_minimum eps om cm vals fails). Qed.
 Print Assumptions C13_labelling_keeps_minimum.
 
 (* ---- the guaranteed minimum at the consumers of the labelling (epsilon-constraint method) -------------------- *)
-(* The wrappers hand on data exactly when some observation is not a reported failure; otherwise the running code raises
-   ValueError (numpy.nanargmin of an empty array) - see C13_wrapper_all_failed_refuted. *)
-Theorem C13_wrapper_defined eps om cm pts vals vars fails lie :
-  (has_success fails = true ->
-     filter_gp_run (EpsC om cm eps) pts vals vars fails lie = Some (filter_gp (EpsC om cm eps) pts vals vars fails lie) /\
-     filter_spe_run (EpsC om cm eps) pts vals fails lie = Some (filter_spe (EpsC om cm eps) pts vals fails lie)) /\
-  (has_success fails = false ->
-     filter_gp_run (EpsC om cm eps) pts vals vars fails lie = None /\
-     filter_spe_run (EpsC om cm eps) pts vals fails lie = None).
-Proof. exact (wrapper_defined eps om cm pts vals vars fails lie). Qed.
-Print Assumptions C13_wrapper_defined.
-
-(* GP path (filter_multimetric_points_sampled): for every history - any number of reported failures, fewer than five good
-   observations, n < 5, ties - at least min(5, n) rows reach the Gaussian process; points, values and variances are
-   equally long and are the rows kept, in order. *)
-Theorem C13_wrapper_gp_keeps_minimum eps om cm n pts vals vars fails lie o : aligned n pts vals vars fails ->
-  filter_gp_run (EpsC om cm eps) pts vals vars fails lie = Some o ->
+(* GP path (filter_multimetric_points_sampled): for EVERY failure mask - any number of reported failures, fewer than five
+   good observations, n < 5, every observation a reported failure, ties - at least min(5, n) rows reach the Gaussian
+   process; points, values and variances are equally long and are the rows kept, in order. *)
+Theorem C13_wrapper_gp_keeps_minimum eps om cm n pts vals vars fails lie : aligned n pts vals vars fails ->
+  let o := filter_gp (EpsC om cm eps) pts vals vars fails lie in
   (Nat.min 5 n <= length (o_pts o))%nat /\
   length (o_pts o) = arr_len (o_vals o) /\ arr_len (o_vals o) = arr_len (o_vars o) /\
   exists keepm, length keepm = n /\ count_true keepm = length (o_pts o) /\
     o_pts o = select keepm pts /\ o_vals o = A1 (select keepm (col om vals)) /\ o_vars o = A1 (select keepm (col om vars)).
-Proof. exact (wrapper_gp_keeps_minimum eps om cm n pts vals vars fails lie o). Qed.
+Proof. exact (wrapper_gp_keeps_minimum eps om cm n pts vals vars fails lie). Qed.
 Print Assumptions C13_wrapper_gp_keeps_minimum.
 
-(* Parzen-estimator path (filter_multimetric_points_sampled_spe): points untouched, every row carries its own optimising
-   value or the lie value, at least min(5, n) rows carry their own value, and when the lie value differs from every
-   observed value at least min(5, n) rows are not the lie - nothing after the repair re-marks a promoted row. *)
-Theorem C13_wrapper_spe_keeps_minimum eps om cm n pts vals fails lie o : aligned n pts vals vals fails ->
-  filter_spe_run (EpsC om cm eps) pts vals fails lie = Some o ->
+(* Parzen-estimator path (filter_multimetric_points_sampled_spe), again for EVERY failure mask: points untouched, every row
+   carries its own optimising value or the lie value, at least min(5, n) rows carry their own value, and when the lie
+   value differs from every observed value at least min(5, n) rows are not the lie - nothing after the repair re-marks a
+   promoted row. *)
+Theorem C13_wrapper_spe_keeps_minimum eps om cm n pts vals fails lie : aligned n pts vals vals fails ->
+  let o := filter_spe (EpsC om cm eps) pts vals fails lie in
   fst o = pts /\ length (snd o) = n /\
   (forall j, (j < n)%nat -> nth j (snd o) 0 = at_ vals j om \/ nth j (snd o) 0 = nth om lie 0) /\
   (Nat.min 5 n <= own_count (col om vals) (snd o))%nat /\
   ((forall j, (j < n)%nat -> ~ at_ vals j om == nth om lie 0) ->
    (Nat.min 5 n <= not_lie_count (nth om lie 0%Q) (snd o))%nat).
-Proof. exact (wrapper_spe_keeps_minimum eps om cm n pts vals fails lie o). Qed.
+Proof. exact (wrapper_spe_keeps_minimum eps om cm n pts vals fails lie). Qed.
 Print Assumptions C13_wrapper_spe_keeps_minimum.
 
-(* "for all failure masks" fails for the mask that marks every observation: no data at all is handed on. *)
-Theorem C13_wrapper_all_failed_refuted :
-  ~ (forall eps om cm pts vals vars fails lie, length pts = length vals -> length vars = length vals -> length fails = length vals ->
-       (exists o, filter_gp_run (EpsC om cm eps) pts vals vars fails lie = Some o) /\
-       (exists o, filter_spe_run (EpsC om cm eps) pts vals fails lie = Some o)).
-Proof. exact wrapper_all_failed_refuted. Qed.
-Print Assumptions C13_wrapper_all_failed_refuted.
+(* The mask that marks every observation (the repaired defect: the code used to raise ValueError): nothing is labelled by
+   the threshold, the GP is handed all n rows, and on the Parzen path exactly min(5, n) rows are not the lie. *)
+Theorem C13_wrapper_all_failed eps om cm n pts vals vars lie : aligned n pts vals vars (repeat true n) ->
+  let fails := repeat true n in
+  eps_failures eps cm vals fails = repeat false n /\
+  o_pts (filter_gp (EpsC om cm eps) pts vals vars fails lie) = pts /\
+  ((forall j, (j < n)%nat -> ~ at_ vals j om == nth om lie 0) ->
+   not_lie_count (nth om lie 0%Q) (snd (filter_spe (EpsC om cm eps) pts vals fails lie)) = Nat.min 5 n).
+Proof. exact (wrapper_all_failed eps om cm n pts vals vars lie). Qed.
+Print Assumptions C13_wrapper_all_failed.
 
 (* non-vacuity: a 4-row instance with a tie and a dominated row *)
 Example C13_example :
@@ -131,16 +123,23 @@ Proof. vm_compute. repeat split; reflexivity. Qed.
 
 (* non-vacuity of the wrapper theorems: three good observations and four reported failures (carrying the value 9); the
    repair promotes two reported failures, five of seven rows keep their value on the Parzen path (lie value 77) and five
-   rows reach the GP *)
+   rows reach the GP.  The all-failed witness (seven rows, every one a reported failure): nothing is labelled by the
+   threshold, the five lowest rows of the optimising metric keep their value on the Parzen path and all seven reach the GP. *)
 Example C13_wrapper_example :
   let vals := [[0;6]; [9;9]; [3;3]; [9;9]; [6;0]; [9;9]; [9;9]] in
   let fails := [false; true; false; true; false; true; true] in
+  let all_failed := [true; true; true; true; true; true; true] in
+  let vals2 := [[4;6]; [1;9]; [3;3]; [8;2]; [6;0]; [2;5]; [7;7]] in
   let pts := [[0];[1];[2];[3];[4];[5];[6]] in
-  match filter_spe_run (EpsC 0 1 (1#2)) pts vals fails [77; 99] with
-  | Some (p, v) => list_eqb (list_eqb Qeq_bool) p pts && list_eqb Qeq_bool v [0; 9; 3; 9; 6; 77; 77]
-                   && Nat.eqb (not_lie_count 77 v) 5 && Nat.eqb (own_count (col 0 vals) v) 5
-  | None => false end = true /\
-  match filter_gp_run (EpsC 0 1 (1#2)) pts vals vals fails [77; 99] with
-  | Some o => arr_eqb (o_vals o) (A1 [0; 9; 3; 9; 6]) && Nat.eqb (length (o_pts o)) 5 | None => false end = true /\
-  filter_spe_run (EpsC 0 1 (1#2)) pts vals [true; true; true; true; true; true; true] [77; 99] = None.
+  (let '(p, v) := filter_spe (EpsC 0 1 (1#2)) pts vals fails [77; 99] in
+   list_eqb (list_eqb Qeq_bool) p pts && list_eqb Qeq_bool v [0; 9; 3; 9; 6; 77; 77]
+   && Nat.eqb (not_lie_count 77 v) 5 && Nat.eqb (own_count (col 0 vals) v) 5) = true /\
+  (let o := filter_gp (EpsC 0 1 (1#2)) pts vals vals fails [77; 99] in
+   arr_eqb (o_vals o) (A1 [0; 9; 3; 9; 6]) && Nat.eqb (length (o_pts o)) 5) = true /\
+  eps_failures (1#2) 1 vals2 all_failed = [false; false; false; false; false; false; false] /\
+  eps_labelling (1#2) 0 1 vals2 all_failed = [false; false; false; true; false; false; true] /\
+  (let '(p, v) := filter_spe (EpsC 0 1 (1#2)) pts vals2 all_failed [77; 99] in
+   list_eqb Qeq_bool v [4; 1; 3; 77; 6; 2; 77] && Nat.eqb (not_lie_count 77 v) 5) = true /\
+  (let o := filter_gp (EpsC 0 1 (1#2)) pts vals2 vals2 all_failed [77; 99] in
+   arr_eqb (o_vals o) (A1 [4; 1; 3; 8; 6; 2; 7]) && Nat.eqb (length (o_pts o)) 7) = true.
 Proof. vm_compute. repeat split; reflexivity. Qed.
